@@ -162,6 +162,25 @@ func runTLSHistory(c tlsCase, cert tls.Certificate, hi int) (problems []string) 
 		returned = true
 	default:
 	}
+	if returned {
+		// C16: after Shutdown has returned no handler is running or will be started - a client that was accepted before the
+		// call and completes its handshake only now must not get a connect hook
+		before := connects.Load()
+		for id, x := range cl {
+			if x.tc == nil && c.Kind[id-1] == "full" && !x.raw.Closed() {
+				x.tc = tls.Client(x.raw, &tls.Config{InsecureSkipVerify: true, MinVersion: tls.VersionTLS12})
+				go func() {
+					if err := x.tc.Handshake(); err == nil {
+						x.shook.Store(true)
+					}
+				}()
+			}
+		}
+		synctest.Wait()
+		if after := connects.Load(); after != before {
+			bad("handler-started-after-shutdown: Shutdown had returned; a client accepted before completed its handshake afterwards and %d connect hook(s) ran", after-before)
+		}
+	}
 	if !returned {
 		if len(c.Open) == 0 {
 			bad("shutdown-blocked: no client connection is open but Shutdown has not returned")
@@ -207,7 +226,7 @@ func runTLSHistory(c tlsCase, cert tls.Certificate, hi int) (problems []string) 
 	default:
 		bad("serve-not-returned: Serve is still running after Shutdown")
 	}
-	if int(connects.Load()) != len(c.Hooked) {
+	if int(connects.Load()) != len(c.Hooked) && !hasProblem(problems, "handler-started-after-shutdown") {
 		bad("connect-hooks: %d connect hook calls, %d handshakes completed", connects.Load(), len(c.Hooked))
 	}
 	if connects.Load() != terminates.Load() {
@@ -217,6 +236,15 @@ func runTLSHistory(c tlsCase, cert tls.Certificate, hi int) (problems []string) 
 		bad("goroutines-left: %d goroutine(s) running server code are left after the history", n-base)
 	}
 	return problems
+}
+
+func hasProblem(ps []string, prefix string) bool {
+	for _, p := range ps {
+		if strings.HasPrefix(p, prefix) {
+			return true
+		}
+	}
+	return false
 }
 
 // statesOf describes what the other clients have done up to step k (for reports)
